@@ -70,6 +70,7 @@ func hx(b []byte) string {
 }
 
 // xnet prints golang.org/x/net/html's tokenisation of one document: items separated by spaces, fields by ':' (hex).
+// A start tag is S:name:selfclosing:rawtext:key:value:...
 func xnet(doc []byte) string {
 	z := html.NewTokenizer(bytes.NewReader(doc))
 	var items []string
@@ -94,6 +95,7 @@ func xnet(doc []byte) string {
 				} else {
 					it += ":0"
 				}
+				it += ":" + hx(z.Raw()) // the raw source text of the tag (z.Raw is valid until the next call of Next)
 				for has {
 					var k, v []byte
 					k, v, has = z.TagAttr()
